@@ -251,6 +251,17 @@ def parse(sql):
         return ('update', t, sets, where, nparam)
     if k == 'SELECT':
         p.eat('SELECT')
+        if p.opt('EXISTS'):
+            # SELECT EXISTS (SELECT <anything> FROM t WHERE ...): one row, one integer 0/1
+            p.eat('(')
+            p.eat('SELECT')
+            p.eat()
+            p.eat('FROM')
+            t = p.ident()
+            where, nparam = parse_where(p, 0)
+            p.eat(')')
+            p.end()
+            return ('exists', t, where, nparam)
         cols = [p.ident()]
         while p.opt(','):
             cols.append(p.ident())
@@ -682,6 +693,27 @@ def emit(w, name, st, tables, order, col_index):
         w('    StmtResult::Row(RowData { ncols: %d, names: [%s], vals })' % (len(cols), ', '.join('"%s"' % (cols[j] if j < len(cols) else '') for j in range(6))))
         w('}')
         return 'select'
+    if k == 'exists':
+        _, t, where, nparam = st
+        ti = order.index(t) if t in order else None
+        if ti is None:
+            raise Unparsed('no such table ' + t)
+        w('pub fn %s(c: usize, p: &Bound) -> StmtResult {' % name)
+        w('    if p.n != %d { return StmtResult::BadParams; }' % nparam)
+        w('    read_gate(c);')
+        w('    snap_stmt();')
+        w('    let mut found = false; let mut i = 0;')
+        w('    while i < NR {')
+        w('        let r = db().t[%d].rows[i];' % ti)
+        cond = cond_expr(w, name, 'r', t, where, tables, order, col_index)
+        w('        if db().t[%d].used[i] && %s { found = true; }' % (ti, cond))
+        w('        i += 1;')
+        w('    }')
+        w('    let mut vals = [Val::Null; NC];')
+        w('    vals[0] = Val::Int(if found { 1 } else { 0 });')
+        w('    StmtResult::Row(RowData { ncols: 1, names: ["", "", "", "", "", ""], vals })')
+        w('}')
+        return 'select_exists'
     if k == 'delete':
         _, t, where, nparam = st
         ti = order.index(t) if t in order else None
